@@ -76,14 +76,23 @@ def draw_inputs(c, rng, lo=-2, hi=2):
             i = k + 1 + first                     # 1-based slice number
             P = selection(rng, J, R)
             if c["at"] == i and R >= 1:
-                if c["bad"] == "nonorth_double" and R >= 2:
+                bad = c["bad"]
+                if bad == "nonorth_double" and R >= 2:        # Gram off-diagonal +1
                     P[:, 1] = P[:, 0]
-                elif c["bad"] == "nonorth_scaled":
+                elif bad == "nonorth_scaled":                 # Gram diagonal 4
                     P[:, 0] *= 2
-                elif c["bad"] == "nonorth_skew" and R >= 2:
+                elif bad == "nonorth_skew" and R >= 2:        # Gram diagonal 2, off-diagonal +-1
                     P[:, 1] = P[:, 1] + P[:, 0]
+                elif bad == "nonorth_zero":                   # Gram diagonal 0 (deviation -1)
+                    P[:, rng.integers(R)] = 0.0
+                elif bad == "nonorth_allzero":                # Gram = 0
+                    P[:] = 0.0
+                elif bad == "nonorth_negdup" and R >= 2:      # Gram off-diagonal -1, unit diagonal
+                    P[:, 1] = -P[:, 0]
+                # "nonorth_half": the numerators stay a selection matrix, the denominator is 2 (Gram = I/4)
             ps.append(P)
-        inp["ps"] = ps
+        inp["ps"] = ps                                        # integer numerators ...
+        inp["pden"] = int(c.get("pden", 1))                   # ... over this common denominator
     return inp
 
 
@@ -98,6 +107,7 @@ def inputs_json(c, inp):
         out["core"] = jt(inp["core"])
     if "ps" in inp:
         out["ps"] = [jt(p) for p in inp["ps"]]
+        out["pden"] = int(inp.get("pden", 1))
     return out
 
 
@@ -112,6 +122,7 @@ def inputs_from_json(c, j):
         inp["core"] = as_float(j["core"]["data"]).reshape(j["core"]["shape"])
     if "ps" in j:
         inp["ps"] = [as_float(p["data"]).reshape(p["shape"]) for p in j["ps"]]
+        inp["pden"] = int(j.get("pden", 1))
     return inp
 
 
@@ -125,7 +136,7 @@ def fresh(op, inp):
     if op in ("tt", "tr", "ttm"):
         return fs
     if op == "p2":
-        return (inp["w"].copy() if inp["hasw"] else None, fs, [p.copy() for p in inp["ps"]])
+        return (inp["w"].copy() if inp["hasw"] else None, fs, [p / float(inp.get("pden", 1)) for p in inp["ps"]])
     raise ValueError(op)
 
 
@@ -180,7 +191,7 @@ NO_NORM = {"has": False, "fin0": False, "fin3": False, "q3": 0, "q0": 0}
 
 
 def blank_run(op):
-    r = {"rejected": False, "raised": False, "exc": "", "exact": True, "dense": EMPTY_T, "unf": [], "vec": EMPTY_T,
+    r = {"rejected": False, "raised": False, "convert": False, "accepted": [], "exc": "", "exact": True, "dense": EMPTY_T, "unf": [], "vec": EMPTY_T,
          "shape": [], "rank": [], "norm": NO_NORM}
     if op == "cp":
         r["masked"] = EMPTY_T
@@ -257,13 +268,46 @@ def run_views(op, inp, how):
     return r
 
 
-def silent_reconstruction(op, inp):
-    """Information only (no verdict): does *_to_tensor on the raw invalid tuple return a value?"""
-    try:
-        _api(op)["to_tensor"](fresh(op, inp))
-        return True
-    except Exception:
-        return False
+def conversions(op):
+    """Every conversion function the property names, as (name, callable on the raw tuple/list form)."""
+    import tensorly as tl
+    from tensorly import cp_tensor, parafac2_tensor as p2
+    if op == "cp":
+        return [("cp_to_tensor", tl.cp_to_tensor), ("cp_to_unfolded", lambda t: tl.cp_to_unfolded(t, 0)),
+                ("cp_to_vec", tl.cp_to_vec), ("cp_norm", cp_tensor.cp_norm)]
+    if op == "tucker":
+        return [("tucker_to_tensor", tl.tucker_to_tensor), ("tucker_to_unfolded", lambda t: tl.tucker_to_unfolded(t, 0)),
+                ("tucker_to_vec", tl.tucker_to_vec)]
+    if op == "tt":
+        return [("tt_to_tensor", tl.tt_to_tensor), ("tt_to_unfolded", lambda t: tl.tt_to_unfolded(t, 0)), ("tt_to_vec", tl.tt_to_vec)]
+    if op == "tr":
+        return [("tr_to_tensor", tl.tr_to_tensor), ("tr_to_unfolded", lambda t: tl.tr_to_unfolded(t, 0)), ("tr_to_vec", tl.tr_to_vec)]
+    if op == "ttm":
+        return [("tt_matrix_to_tensor", tl.tt_matrix_to_tensor), ("tt_matrix_to_matrix", tl.tt_matrix_to_matrix),
+                ("tt_matrix_to_unfolded", lambda t: tl.tt_matrix_to_unfolded(t, 0)), ("tt_matrix_to_vec", tl.tt_matrix_to_vec)]
+    if op == "p2":
+        return [("parafac2_to_tensor", p2.parafac2_to_tensor), ("parafac2_to_slices", p2.parafac2_to_slices),
+                ("parafac2_to_slice", lambda t: p2.parafac2_to_slice(t, 0)),
+                ("parafac2_to_unfolded", lambda t: p2.parafac2_to_unfolded(t, 0)), ("parafac2_to_vec", p2.parafac2_to_vec),
+                ("apply_parafac2_projections", p2.apply_parafac2_projections)]
+    raise ValueError(op)
+
+
+def run_convert(op, inp):
+    """Invalid family only: call every conversion function on the raw tuple; the run counts as `rejected`
+    iff every one of them raised.  `accepted` lists those that returned a value (silent reconstruction)."""
+    r = blank_run(op)
+    accepted = []
+    for name, fn in conversions(op):
+        try:
+            fn(fresh(op, inp))
+            accepted.append(name)
+        except Exception:
+            pass
+    r["convert"] = True
+    r["rejected"] = not accepted
+    r["accepted"] = accepted
+    return r
 
 
 def set_tenalg(name):
